@@ -44,6 +44,8 @@ type AsyncScn struct {
 	Overflow   bool      `json:"overflow,omitempty"`     // C12: Block policy with more writes than the buffer holds
 	Restart    bool      `json:"restart,omitempty"`      // direct AsyncLogger: a first life (Start, a few items, Stop) precedes the workload on the SAME object
 	SleepMs    int       `json:"sleep_ms,omitempty"`     // the recording appender takes this much simulated time per item
+	SyncFail   bool      `json:"sync_fail,omitempty"`    // C05: fsync on the log files fails (EINVAL, as on a pipe or a full disk) from before Stop on
+	Rejected   bool      `json:"rejected_refresh,omitempty"` // C05 (Refresh-built): a second Refresh is attempted (and rejected) while the configuration is live
 	DefaultSize bool     `json:"default_size,omitempty"` // the bufferSize attribute is omitted: the declared default (10000) applies
 	Cycle      bool      `json:"cycle,omitempty"`     // C12: Refresh, Destroy, Refresh again; the handle of the first life is used
 	Handles    int       `json:"handles,omitempty"` // C12: extra GetLogger calls for the same name
@@ -228,6 +230,13 @@ func buildAsync(x *Exec, s *AsyncScn) *asyncSys {
 		if pv != nil {
 			sys.err = fmt.Errorf("Refresh panicked: %v at %s", pv, panicSite(st))
 		}
+		if s.Rejected && sys.err == nil {
+			var err2 error
+			x.do("second-refresh", func() { call(func() { err2 = log.Refresh(cfg) }) })
+			if err2 == nil {
+				sys.err = fmt.Errorf("a second Refresh without Destroy was accepted")
+			}
+		}
 		sys.stop = log.Destroy
 		sys.counter = func() int64 { return 0 }
 		for _, l := range log.VerifLoggers() { // captured now: Destroy forgets the loggers
@@ -249,7 +258,10 @@ func (sys *asyncSys) submit(task, seq int, op AOp, reuse *[]byte) *Sub {
 	if op.Raw {
 		var p []byte
 		if op.Size < 0 {
-			p = []byte{}
+			p = []byte{} // an empty write: zero-length slice or nil, both legal io.Writer arguments
+			if (task+seq)%2 == 0 {
+				p = nil
+			}
 			sb.Empty = true
 		} else {
 			p = rawPayload(task, seq, op.Size)
